@@ -37,7 +37,7 @@ const (
 
 var typeNames = make(map[byte]string, 16)
 
-type reader func(i *bufio.Reader) (RedisMessage, error)
+type reader func(i *bufio.Reader, depth int) (RedisMessage, error)
 
 var readers = [256]reader{}
 
@@ -77,12 +77,12 @@ func init() {
 	typeNames[typeEnd] = "null"
 }
 
-func readSimpleString(i *bufio.Reader) (m RedisMessage, err error) {
+func readSimpleString(i *bufio.Reader, _ int) (m RedisMessage, err error) {
 	m.bytes, m.intlen, err = readS(i)
 	return
 }
 
-func readBlobString(i *bufio.Reader) (m RedisMessage, err error) {
+func readBlobString(i *bufio.Reader, _ int) (m RedisMessage, err error) {
 	m.bytes, m.intlen, err = readB(i)
 	if err == errChunked {
 		sb := strings.Builder{}
@@ -113,12 +113,12 @@ func readBlobString(i *bufio.Reader) (m RedisMessage, err error) {
 	return
 }
 
-func readInteger(i *bufio.Reader) (m RedisMessage, err error) {
+func readInteger(i *bufio.Reader, _ int) (m RedisMessage, err error) {
 	m.intlen, err = readI(i)
 	return
 }
 
-func readBoolean(i *bufio.Reader) (m RedisMessage, err error) {
+func readBoolean(i *bufio.Reader, _ int) (m RedisMessage, err error) {
 	b, err := i.ReadByte()
 	if err != nil {
 		return RedisMessage{}, err
@@ -130,33 +130,33 @@ func readBoolean(i *bufio.Reader) (m RedisMessage, err error) {
 	return
 }
 
-func readNull(i *bufio.Reader) (m RedisMessage, err error) {
+func readNull(i *bufio.Reader, _ int) (m RedisMessage, err error) {
 	_, err = i.Discard(2)
 	return
 }
 
-func readArray(i *bufio.Reader) (m RedisMessage, err error) {
+func readArray(i *bufio.Reader, depth int) (m RedisMessage, err error) {
 	length, err := readI(i)
 	if err == nil {
 		if length == -1 {
 			return m, errOldNull
 		}
-		m.array, m.intlen, err = readA(i, length)
+		m.array, m.intlen, err = readA(i, length, depth)
 	} else if err == errChunked {
-		m.array, m.intlen, err = readE(i)
+		m.array, m.intlen, err = readE(i, depth)
 	}
 	return m, err
 }
 
-func readMap(i *bufio.Reader) (m RedisMessage, err error) {
+func readMap(i *bufio.Reader, depth int) (m RedisMessage, err error) {
 	length, err := readI(i)
 	if err == nil {
 		if length > math.MaxInt64/2 {
 			return m, errNegativeLength
 		}
-		m.array, m.intlen, err = readA(i, length*2)
+		m.array, m.intlen, err = readA(i, length*2, depth)
 	} else if err == errChunked {
-		m.array, m.intlen, err = readE(i)
+		m.array, m.intlen, err = readE(i, depth)
 	}
 	return m, err
 }
@@ -248,10 +248,10 @@ func readB(i *bufio.Reader) (*byte, int64, error) {
 	return unsafe.SliceData(bs), int64(len(bs)), nil
 }
 
-func readE(i *bufio.Reader) (*RedisMessage, int64, error) {
+func readE(i *bufio.Reader, depth int) (*RedisMessage, int64, error) {
 	v := make([]RedisMessage, 0)
 	for {
-		n, err := readNextMessage(i)
+		n, err := readMessage(i, depth+1)
 		if err != nil {
 			return nil, 0, err
 		}
@@ -262,25 +262,27 @@ func readE(i *bufio.Reader) (*RedisMessage, int64, error) {
 	}
 }
 
-func readA(i *bufio.Reader, length int64) (*RedisMessage, int64, error) {
+func readA(i *bufio.Reader, length int64, depth int) (*RedisMessage, int64, error) {
 	var err error
 
 	if length < 0 {
 		return nil, 0, errNegativeLength
 	}
-	if length <= int64(maxPrealloc/messageStructSize) {
+	// Do not trust a declared length with memory before the elements have arrived. The allowance halves with every
+	// level of nesting, so that nested aggregates cannot multiply it.
+	prealloc := int64(maxPrealloc/messageStructSize) >> min(depth, 32)
+	if length <= prealloc {
 		msgs := make([]RedisMessage, length)
 		for n := range length {
-			if msgs[n], err = readNextMessage(i); err != nil {
+			if msgs[n], err = readMessage(i, depth+1); err != nil {
 				return nil, 0, err
 			}
 		}
 		return unsafe.SliceData(msgs), length, nil
 	}
-	// do not trust a declared length with memory before the elements have arrived
-	msgs := make([]RedisMessage, 0, maxPrealloc/messageStructSize)
+	msgs := make([]RedisMessage, 0, prealloc)
 	for range length {
-		m, err := readNextMessage(i)
+		m, err := readMessage(i, depth+1)
 		if err != nil {
 			return nil, 0, err
 		}
@@ -318,8 +320,15 @@ func writeN(o *bufio.Writer, id byte, n int) (err error) {
 }
 
 func readNextMessage(i *bufio.Reader) (m RedisMessage, err error) {
+	return readMessage(i, 0)
+}
+
+func readMessage(i *bufio.Reader, depth int) (m RedisMessage, err error) {
 	var attrs *RedisMessage
 	var typ byte
+	if depth > maxNesting {
+		return RedisMessage{}, errNestingTooDeep
+	}
 	for {
 		if typ, err = i.ReadByte(); err != nil {
 			return RedisMessage{}, err
@@ -328,7 +337,7 @@ func readNextMessage(i *bufio.Reader) (m RedisMessage, err error) {
 		if fn == nil {
 			return RedisMessage{}, errors.New(unknownMessageType + strconv.Itoa(int(typ)))
 		}
-		if m, err = fn(i); err != nil {
+		if m, err = fn(i, depth); err != nil {
 			if err == errOldNull {
 				return RedisMessage{typ: typeNull}, nil
 			}
@@ -436,6 +445,13 @@ func flushCmd(o *bufio.Writer, cmd []string) (err error) {
 
 // maxPrealloc bounds the memory committed for a declared length before the corresponding bytes have been received.
 const maxPrealloc = 1 << 20
+
+// maxNesting bounds the nesting of aggregates in one reply: the decoder recurses once per level, and an unbounded
+// chain of one-element arrays would otherwise exhaust the goroutine stack, which cannot be recovered from.
+const maxNesting = 10000
+
+// errNestingTooDeep reports a reply nested deeper than maxNesting
+var errNestingTooDeep = errors.New(unknownMessageType + strconv.Itoa(int(typeArray)))
 
 // errNegativeLength reports a length below -1, i.e. a minus sign where only digits can follow
 var errNegativeLength = errors.New(unexpectedNumByte + strconv.Itoa('-'))
